@@ -207,11 +207,13 @@ def run(ctx: Ctx):
     jb = jr.node.body
     SJ = Snips(jr)
     # the zero map, by what it is (named or written in place), is returned under the test; only single assignments of locals come before
-    jsol_ = SJ.solve(["jr = {an: 0 for an in self.agent_names}",
+    # (a dict comprehension assigned to a name is read as the loop that fills it: model._desugar_dict_builds)
+    jsol_ = SJ.solve(["for an in self.agent_names:\n    jr[an] = 0",
                       f"if self.is_terminal({jr.positional_params[1]}) or self.is_terminal({jr.positional_params[3]}):\n    return jr\n    REST"])
     jif = jsol_[1][1] if jsol_ else None
+    jfor = jsol_[1][0] if jsol_ else None
     ok = jif is not None and any(st is jif for st in jb) and all(
-        isinstance(st, ast.Assign) and all(isinstance(t, ast.Name) and t.id in SJ.defs for t in st.targets) for st in jb[:next(i for i, st in enumerate(jb) if st is jif)])
+        st is jfor or (isinstance(st, ast.Assign) and all(isinstance(t, ast.Name) and t.id in SJ.defs for t in st.targets)) for st in jb[:next(i for i, st in enumerate(jb) if st is jif)])
     ctx.check(ok, "TERM-1", jr, jif if jif is not None else (jb[1] if len(jb) > 1 else jr.node), "rewards are the zero map when either end is terminal", "", "terminal transitions are not paid zero")
     it = G.methods["is_terminal"]
     ctx.check(Snips(it).has(f"{it.positional_params[1]}.get('isTerminal', False)"), "TERM-1", it, it.node, "is_terminal reads the isTerminal flag", "", "terminal predicate changed")
